@@ -10,7 +10,7 @@ CONSTANTS
   Policy <- PolMixed
   NSteps = 3
   Dt = 3
-  OutEvery = 1
+  OutDt = 3
   Events <- Durations
   WithEstimation = TRUE
   WithSerendipity = FALSE
@@ -20,6 +20,7 @@ CONSTANTS
   KeepMissedAcrossSteps = FALSE
   PriorityToAllEngines = FALSE
   PruneKeepsEqual = FALSE
+  PartialCommit = FALSE
 INVARIANT OneRecordPerTasking
 INVARIANT NoRecordWithoutTasking
 INVARIANT PointingReflectsTasking
